@@ -20,7 +20,8 @@ NPROC = str(min(16, os.cpu_count() or 4))
 
 TRUSTED_BASE = [
     'Coq 8.16.1 kernel (coqc, full .vo build; vm_compute used for witnesses/Examples; native_compute not used)',
-    'harness/extract.py translator: regenerates coq/Extracted.v from /repo on every run (fail-closed)',
+    'harness/extract.py translator: regenerates coq/Extracted.v from /repo on every run (fail-closed per section); source pins (sha1 of the normalised AST) of the functions that are modelled by hand',
+    'no axioms: every property theorem is closed under the global context (Print Assumptions parsed on each run; coqchk -o on all Props: no axioms, no assumed positivity / guard / type-in-type)',
     'Coq extraction with ExtrOcamlBasic only (Extract Inductive bool/option/list/prod/unit/sumbool); no Extract Constant; OCaml 4.13.1',
     'ocaml/driver.ml: generic S-expression tokenizer/printer (no per-operation logic)',
     'harness correspondence check: generators, canonicalisation of exceptions to classes, comparison',
